@@ -1,6 +1,7 @@
 package props
 
 import (
+	"bytes"
 	"encoding/json"
 	"fmt"
 	"go/ast"
@@ -384,6 +385,33 @@ func checkRegistryConsistency(r lint.Registry, bad func(sig, msg string)) {
 	for _, l := range all {
 		if perSrc[l.Kind+"|"+l.Name] != 1 {
 			bad("bysource-partition|"+l.Name, fmt.Sprintf("lint reached %d times through BySource, want 1", perSrc[l.Kind+"|"+l.Name]))
+		}
+	}
+	// the full listing (WriteJSON): one line per lint of any kind, each naming a listed lint once
+	var buf bytes.Buffer
+	r.WriteJSON(&buf)
+	listed := map[string]int{}
+	for _, ln := range strings.Split(strings.TrimRight(buf.String(), "\n"), "\n") {
+		if ln == "" {
+			continue
+		}
+		var m struct {
+			Name string `json:"name"`
+		}
+		if err := json.Unmarshal([]byte(ln), &m); err != nil {
+			bad("listing-line", "WriteJSON line does not decode: "+short(ln, 80))
+			continue
+		}
+		listed[m.Name]++
+	}
+	for _, l := range all {
+		if listed[l.Name] != 1 {
+			bad("listing|"+l.Name, fmt.Sprintf("lint appears %d times in the WriteJSON listing, want 1", listed[l.Name]))
+		}
+	}
+	for n := range listed {
+		if !nameSet[n] {
+			bad("listing-extra|"+n, "WriteJSON lists a name that Names() does not")
 		}
 	}
 }
